@@ -18,7 +18,7 @@ MANIFEST = {
     'text': 'Each case calls a replicated method with generated positional/keyword arguments (recursive picklable shapes; byte strings sized k*batch+delta for a band of deltas around every multiple) on a healthy '
             '2-3 node cluster with memory or fresh 1 KiB file journals, batched or unbatched. Oracle: every replica executed the call exactly once with equal arguments, callback SUCCESS, no exception escaped '
             'tick or message handling. The quick tier enumerates the whole band for b=64 and b=100; thorough enumerates all listed batch sizes.',
-    'note': 'In-order prompt delivery (the property is about inputs, not schedules); NaN excluded (NaN != NaN is an oracle artefact); sizes up to ~4x batch size and 300 KB.',
+    'note': 'In-order prompt delivery (the property is about inputs, not schedules); NaN excluded (NaN != NaN is an oracle artefact); sizes up to ~4x batch size and 300 KB (quick tier: at most 20000 transmission pieces per call).',
 }
 LEVEL = 'exploration'
 RULE = ('case = (n in 2..3, batched?, batch size b, memory|file journal, list of calls; call = shape-generated args/kwargs or a byte string of length k*b+delta, k=1..4, delta in [-96,32]). '
